@@ -45,6 +45,7 @@ fn read_bstr(b: &[u8]) -> Option<(Vec<u8>, Option<Vec<usize>>, usize)> {
 
 fn main() {
     let mut n = 0u64;
+    let thorough = std::env::args().nth(1).as_deref() == Some("thorough");
     // ---- atoms ------------------------------------------------------------------------------------------------------------------------------
     let mut ints: Vec<PlutusData> = vec![];
     for v in [0i128, 1, -1, 2, -2, 255, 256, -255, -256, 65535, 65536, i64::MAX as i128, i64::MIN as i128, (1 << 64) - 1, -(1 << 64)] { ints.push(int(v)); }
@@ -95,8 +96,8 @@ fn main() {
     } }
     // ---- order laws on a sample ---------------------------------------------------------------------------------------------------------------------
     let mut sample: Vec<PlutusData> = vec![];
-    sample.extend(ints.iter().step_by(3).cloned()); sample.extend(strs.iter().step_by(2).cloned()); sample.extend(conts.iter().step_by(11).cloned()); sample.extend(nested.iter().step_by(5).cloned());
-    sample.truncate(70);
+    if thorough { sample.extend(ints.iter().cloned()); sample.extend(strs.iter().cloned()); sample.extend(conts.iter().step_by(4).cloned()); sample.extend(nested.iter().step_by(2).cloned()); sample.truncate(320); }
+    else { sample.extend(ints.iter().step_by(3).cloned()); sample.extend(strs.iter().step_by(2).cloned()); sample.extend(conts.iter().step_by(11).cloned()); sample.extend(nested.iter().step_by(5).cloned()); sample.truncate(70); }
     for a in &sample {
         if a.cmp(a) != Ordering::Equal { fail(format!("{a:?} does not compare equal to itself")); }
         for b in &sample {
